@@ -196,6 +196,13 @@ def run(pid, tier, seed):
         'rule': getattr(mod, 'RULE', ''), 'samples': samples[:6],
         'broken': [{'kind': k, 'what': w} for k, w, _ in broken],
     })
+    # optional per-property measurements (anchored-function coverage, generator statistics, ...)
+    extra = getattr(mod, 'extra_coverage', None)
+    if extra is not None:
+        try:
+            cov['extra'] = extra()
+        except Exception:
+            cov['extra'] = {'error': traceback.format_exc()[-400:]}
     C.write_evidence(pid, {
         'property_id': pid, 'tier': tier, 'seed': seed, 'level': 'proof', 'coverage': cov,
         'assumptions': list(getattr(mod, 'ASSUMPTIONS', [])),
